@@ -471,7 +471,7 @@ class Interp(ExprMixin):
                 kk = dict_key(idx)
                 if kk is not None and not self.loop_ctx:
                     base.items[kk] = v
-                else:
+                elif not any(repr(idx) == repr(k2) and repr(v) == repr(v2) for k2, v2 in base.opaque_keys):
                     base.opaque_keys.append((idx, v))
                 if getattr(base, 'created_in', None) != self._frame_id():
                     self.event("mutate", target=getattr(base, "shared_name", None) or _describe(base)[:60], op="setitem",
